@@ -358,6 +358,34 @@ impl Default for EmmyLuaAnalysis {
 unsafe impl Send for EmmyLuaAnalysis {}
 unsafe impl Sync for EmmyLuaAnalysis {}
 
+/// Verification hook (feature `verif-hooks`, off by default, compile-time only): every component
+/// the shared analysis holds must be `Send + Sync` on its own, without relying on the unchecked
+/// `unsafe impl` above.
+#[cfg(feature = "verif-hooks")]
+const _: fn() = || {
+    fn assert_send_sync<T: Send + Sync>() {}
+    assert_send_sync::<LuaCompilation>();
+    assert_send_sync::<LuaDiagnostic>();
+    assert_send_sync::<DbIndex>();
+    assert_send_sync::<Vfs>();
+    assert_send_sync::<Emmyrc>();
+    assert_send_sync::<Arc<Emmyrc>>();
+    assert_send_sync::<LuaDeclIndex>();
+    assert_send_sync::<LuaReferenceIndex>();
+    assert_send_sync::<LuaTypeIndex>();
+    assert_send_sync::<LuaModuleIndex>();
+    assert_send_sync::<LuaMemberIndex>();
+    assert_send_sync::<LuaPropertyIndex>();
+    assert_send_sync::<LuaSignatureIndex>();
+    assert_send_sync::<DiagnosticIndex>();
+    assert_send_sync::<LuaOperatorIndex>();
+    assert_send_sync::<LuaFlowIndex>();
+    assert_send_sync::<LuaDependencyIndex>();
+    assert_send_sync::<LuaMetatableIndex>();
+    assert_send_sync::<LuaGlobalIndex>();
+    assert_send_sync::<JsonSchemaIndex>();
+};
+
 #[cfg(test)]
 mod tests {
     use super::*;
